@@ -87,6 +87,7 @@ def step (st : DState) (line : String) : DState × String :=
   | "num" :: rest => (st, stepNum rest)
   | "ff" :: rest => (st, Libvna.Drv.stepFF rest)
   | "npd" :: rest => (st, Libvna.Drv.stepNpd rest)
+  | "iter" :: rest => (st, Libvna.Drv.stepIter rest)
   | "cal" :: rest => let (c, o) := Libvna.Drv.stepCal st.cal rest; ({ st with cal := c }, o)
   | "pt" :: rest => let (p, o) := Libvna.Drv.stepPt st.pt rest; ({ st with pt := p }, o)
   | "vd" :: rest => let (v, o) := Libvna.Drv.stepVd st.vd rest; ({ st with vd := v }, o)
